@@ -20,12 +20,14 @@ const c12Fuel = 100000
 
 func init() {
 	register(&Prop{ID: "C12", Run: c12Run,
-		Rule: "action trees whose nodes carry subsets of {set, template, log, ext trace, abort} (each op tagged with its node's unique name), a condition from {none, \"true\", \"false\", {{ .flagT }}, {{ .flagF }}} (random trees also: a flag written by ANOTHER action's set, which is a missing-field error when that action has not run) and distinct sibling orders (children listed in shuffled order). 'enum' cases: the scope root(16 op subsets of size<=2 x 5 conditions) x 0..2 children (6 op subsets of size<=1 x 5 conditions each) — sampled in the quick tier, exhaustive in the thorough tier; 'tree' cases: random trees, depth<=5, fan-out<=4 (thorough: depth 3 trees drawn from the full per-node alphabet in addition). Each case is executed twice: built as Go structs and decoded from generated YAML. Non-trivial: at least 2 actions and at least one operation. Distinct = distinct canonical case JSON.",
+		Rule: "action trees whose nodes carry subsets of {set, template, log, ext trace, abort} (each op tagged with its node's unique name), a condition from {none, \"true\", \"false\", {{ .flagT }}, {{ .flagF }}} (random trees also: a flag written by ANOTHER action's set, which is a missing-field error when that action has not run) and distinct sibling orders (children listed in shuffled order). 'enum' cases: the scope root(16 op subsets of size<=2 x 5 conditions) x 0..2 children (6 op subsets of size<=1 x 5 conditions each) — sampled in the quick tier, exhaustive in the thorough tier; 'tree' cases: random trees, depth<=5, fan-out<=4 (thorough: depth 3 trees drawn from the full per-node alphabet in addition). 'mixed' cases: nodes carrying subsets of ALL operation kinds the program form knows (also call, define, forEach, loop) on the same node — every pair of kinds on one node, then random trees; 'allops' cases (no model): one action carrying a subset of all sixteen OpSpec fields (patch, import, templateFile, env, exec, export, html2Dom included), each configured to succeed or to fail — every pair of fields, then random subsets — the operations that ran must be the fields present in the DOCUMENTED order (a literal copy of the field list at the pinned commit, not reflection on the type under test) up to the first failing one; 'hist' cases (HISTORY): one ActionSpec value executed 2..4 times, each time by a fresh executor with its own data, listener and ext registrations (a function name may trace in one run, fail in the next, be absent in a third): every run must equal the reference for THAT run. Each case is executed twice: built as Go structs and decoded from generated YAML. Besides the model comparison every run is compared (direct predicate) with an independent Go reference interpreter (c12_ref.go: documented operation order, per-run ext registrations). Non-trivial: at least 2 actions and at least one operation (hist: at least 2 runs and an ext operation; allops: at least 2 fields). Distinct = distinct canonical case JSON.",
 		Assumptions: []string{
 			"template semantics owned by the model: literal text and {{ .a.b }} field chains of scalars only; strconv.ParseBool table; generated programs stay inside",
 			"sibling order values are distinct and small (no overflow in the a.Order-b.Order comparator)",
 			"EvalBool calls are observed through a TemplateEngine wrapper that delegates to the library's own default engine",
 			"error identity: the returned error is compared with == against the errors passed to OnAfter; error texts are not compared (except the rendered abort message)",
+			"the fixed declared operation order is the documented one: the OpSpec field list at the pinned commit (c12DocumentedOrder); a change of that order is a violation, whatever the regenerated table says",
+			"allops: /bin/true-like program `true` on PATH for the exec operation (the field is left out otherwise); temp files under .work",
 		}})
 	evals["C12"] = c12Eval
 	shrinkers["C12"] = shrinkJSON
@@ -198,6 +200,33 @@ func c12Run(c *Ctx) {
 		root := c12RandTree(r, "r", 0, maxDepth, maxFan, &others)
 		c.Do("tree", c12Case{Data: c12Data(), Root: root})
 	}
+	// every kind of operation the program form knows, several of them on the same node
+	for _, cs := range c12MixedPairs(r) {
+		c.Tick()
+		c.Do("mixed", cs)
+	}
+	for i := 0; i < c.N(500); i++ {
+		c.Tick()
+		var defined []string
+		root := c12MixedTree(r, "r", 0, 1+r.Intn(3), 1+r.Intn(3), &defined)
+		c.Do("mixed", c12Case{Data: c12Data(), Root: root})
+	}
+	// all sixteen OpSpec fields: every pair on one action, then random subsets with failing members
+	for i := range c12DocumentedOrder {
+		for j := i + 1; j < len(c12DocumentedOrder); j++ {
+			c.Tick()
+			c.Do("allops", c12All{Fields: []string{c12DocumentedOrder[j], c12DocumentedOrder[i]}})
+		}
+	}
+	for i := 0; i < c.N(150); i++ {
+		c.Tick()
+		c.Do("allops", c12GenAll(r))
+	}
+	// HISTORY: one spec value, several executors
+	for i := 0; i < c.N(500); i++ {
+		c.Tick()
+		c.Do("hist", c12GenHist(r))
+	}
 }
 
 func c12Count(a *c12Act) (acts, ops int) {
@@ -221,6 +250,14 @@ func c12Depth(a *c12Act) int {
 }
 
 func c12Eval(c *Ctx, kind string, raw []byte) {
+	switch kind {
+	case "hist":
+		c12EvalHist(c, raw)
+		return
+	case "allops":
+		c12EvalAll(c, raw)
+		return
+	}
 	var p c12Case
 	if err := json.Unmarshal(raw, &p); err != nil {
 		panic(err)
@@ -240,6 +277,7 @@ func c12Eval(c *Ctx, kind string, raw []byte) {
 	if !c.searchMode {
 		model = c.Model("exec", map[string]any{"data": p.Data, "root": p.Root, "fuel": c12Fuel})
 	}
+	ref := refExec(p.Data, &p.Root, refDefaultFns)
 	for _, variant := range []string{"struct", "yaml"} {
 		var spec pipeline.ActionSpec
 		if variant == "struct" {
@@ -269,9 +307,31 @@ func c12Eval(c *Ctx, kind string, raw []byte) {
 		} else {
 			c.Dist("result:ok")
 		}
+		c12RefDirect(c, ref, run, 0, "("+variant+")")
 		c.Corr("exec("+variant+")", map[string]any{"tr": run.tr, "err": run.rec.tag(ret), "data": run.dataWire()},
 			c12ModelView(model))
 	}
+}
+
+// c12RefDirect: "the observed trace of executed operations, the returned error and the final data equal those
+// of a reference interpreter" — the independent Go reference of c12_ref.go (documented operation order, the
+// ext registrations of THIS run), evaluated on the implementation's observations alone.  from = index of the
+// first event of this run in the recording.
+func c12RefDirect(c *Ctx, ref *refRes, run *c12RunRes, from int, v string) {
+	if !ref.OK {
+		c.Dist("reference:outside-its-domain")
+		why := ref.Why
+		if i := strings.IndexAny(why, "\"("); i > 0 {
+			why = strings.TrimSpace(why[:i])
+		}
+		c.Dist("reference:outside-its-domain:" + why)
+		return
+	}
+	c.Dist("reference:compared")
+	got := c12ProjectOps(run.tr[from:])
+	c.Direct("operations-trace-equals-reference"+v, canon(got) == canon(ref.Ev), map[string]any{"got": got, "reference": ref.Ev})
+	c.Direct("returned-error-equals-reference"+v, canon(run.errTags()) == canon(ref.Errs), map[string]any{"got": run.errTags(), "reference": ref.Errs})
+	c.Direct("final-data-equals-reference"+v, canon(run.dataWire()) == canon(ref.Data), map[string]any{"got": run.dataWire(), "reference": ref.Data})
 }
 
 func c12ModelView(m any) any {
@@ -358,7 +418,7 @@ func c12Direct(c *Ctx, p *c12Case, run *c12RunRes, ret error, variant string) {
 			}
 			switch k.label {
 			case "ops":
-				// "in the fixed declared operation order" (declared order taken from the real OpSpec type by reflection)
+				// "in the fixed declared operation order": the documented order (a literal, see c12DocumentedOrder)
 				var gotF []string
 				for _, l := range got {
 					gotF = append(gotF, c12LabelField(l))
